@@ -381,7 +381,7 @@ def gen_frame(rng, hs: History, profile: str, c: int, ids: Dict[int, int], live:
         return hs.short_control(name, bytes(rng.getrandbits(8) for _ in range(k)))
     if op == "connect2":
         mid = rng.choice([0, 0, 0, 10, 10, 11, 12, 99, 100] + ([101, -1, 200, 32767, 1] if (mal or profile == "ids") else []))
-        name = rng.choice(NAMES) if not mal else rng.choice(NAMES + [b"caf\xc3\xa9", b"\xff\xfe"])
+        name = rng.choice(NAMES) if not mal else rng.choice(NAMES + [b"caf\xc3\xa9", b"\xff\xfe", b"dev[/tty]", b"[/]", b"%s{0}"])
         ids[c] = mid
         return hs.connect_v2(logger=1 if rng.random() < 0.2 else 0, daemon=rng.choice([0, 0, 1]),
                              allow_multiple=rng.choice([0, 0, 1]), mod_id=mid, pid=rng.choice([0, 77, 4000 + c]), name=name)
@@ -415,7 +415,7 @@ def gen_frame(rng, hs: History, profile: str, c: int, ids: Dict[int, int], live:
     if op == "ready":
         return hs.ready(rng.choice([0, 123, 4000 + c, -5]))
     if op == "setname":
-        return hs.setname(rng.choice(NAMES + ([b"\xe9t\xe9"] if mal else [])))
+        return hs.setname(rng.choice(NAMES + ([b"\xe9t\xe9", b"x[/y]", b"[b]%d"] if mal else [])))
     if op == "eof":
         return hs.eof(bytes(rng.randrange(0, 47)) if rng.random() < 0.5 else b"")
     if op == "reset":
